@@ -347,6 +347,21 @@ func oracle(r *h.Run, sc scenario, ctorOK, nilNil bool, outs []string) {
 			_ = g
 		}
 	}
+	// items that every drain must deliver: pages before the first failing page, and for a stream (not dried up with an
+	// elapsed grace period) those of the future segments before the first segment that cannot be fetched
+	mustAll, pagesGood := goodPrefix(sc.Pages)
+	if stream && pagesGood {
+		for _, f := range sc.Futures {
+			if len(f) == 0 || f[0].Kind != kPage {
+				break
+			}
+			it, g := goodPrefix(f)
+			mustAll = append(mustAll, it...)
+			if !g {
+				break
+			}
+		}
+	}
 	var yielded []int64
 	stopped := false
 	driedUp := false
@@ -373,6 +388,9 @@ func oracle(r *h.Run, sc scenario, ctorOK, nilNil bool, outs []string) {
 				yielded = append(yielded, v)
 			} else if hasNextTrueSince && !stopped {
 				r.Fail("getnext-fails-after-hasnext:"+sc.Paginator, "HasNext() said true but the following GetNext() failed with "+out, sc)
+			} else if !stopped && len(yielded) < len(mustAll) && !(stream && driedUp && sc.Elapsed) {
+				// "GetNext without HasNext works": items that must still come cannot be answered by an error
+				r.Fail("getnext-error-with-items-left:"+sc.Paginator, fmt.Sprintf("GetNext() failed with %s after %d of %d reachable items", out, len(yielded), len(mustAll)), sc)
 			}
 			hasNextTrueSince = false
 		}
@@ -492,7 +510,7 @@ func runScenario(r *h.Run, sc scenario, emit bool) {
 	r.Eval()
 	oracle(r, sc, ctorOK, nilNil, outs)
 	if emit {
-		r.Case(coqCase(sc, ctorOK && !nilNil, outs), sc)
+		r.Case("(CPlain "+coqCase(sc, ctorOK && !nilNil, outs)+")", sc)
 	}
 	key := fmt.Sprintf("%s|%v|%v|%v|%v", sc.Paginator, sc.Elapsed, sc.Pages, sc.Futures, sc.Ops)
 	nItems := 0
@@ -513,16 +531,205 @@ func runScenario(r *h.Run, sc scenario, emit bool) {
 	r.Sample(map[string]any{"scenario": sc, "ctor_ok": ctorOK, "outs": outs})
 }
 
+
+// ---- timed scenarios: the stream grace period on the real clock ------------------------------------------------
+// The harness imposes a schedule: HasNext is called right after construction and polls (back-off 10 ms) a stream whose
+// future pages are empty until `avail`; another goroutine calls DryUp at `idle`.  Scenario "within": the item becomes
+// available `delta` after DryUp with delta well inside the grace period T — it must be yielded (property: "keeps yielding
+// items of future pages until it has been told the stream is drying up and the grace period has elapsed").  Scenario
+// "expired": the item would come long after DryUp+T — correspondence only (the model predicts expiry).
+// The model is evaluated on the nominal readings of this schedule (one every back-off); margins are >= 400 ms.
+type timedScenario struct {
+	Paginator string `json:"paginator"` // static-stream | dynamic-stream
+	Name      string `json:"name"`      // within | expired
+	TMs       int64  `json:"grace_ms"`
+	IdleMs    int64  `json:"idle_ms"`  // DryUp instant
+	AvailMs   int64  `json:"avail_ms"` // instant at which the future page with the item appears
+}
+
+type tworld struct {
+	start  time.Time
+	avail  time.Duration
+	served bool
+}
+
+type tpg struct {
+	w     *tworld
+	items []int64
+	last  bool
+}
+
+func (p *tpg) HasNext() bool { return false }
+func (p *tpg) GetItemIterator() (pagination.IIterator, error) {
+	return &iter{items: p.items}, nil
+}
+func (p *tpg) GetItemCount() (int64, error) { return int64(len(p.items)), nil }
+func (p *tpg) GetNext(ctx context.Context) (pagination.IPage, error) {
+	return nil, errors.New("harness: no next page")
+}
+func (p *tpg) HasFuture() bool { return !p.last }
+func (p *tpg) future() *tpg {
+	if time.Since(p.w.start) >= p.w.avail && !p.w.served {
+		p.w.served = true
+		return &tpg{w: p.w, items: []int64{7}, last: true}
+	}
+	return &tpg{w: p.w}
+}
+func (p *tpg) GetFuture(ctx context.Context) (pagination.IStream, error) { return p.future(), nil }
+
+func executeTimed(ts timedScenario) []string {
+	w := &tworld{avail: time.Duration(ts.AvailMs) * time.Millisecond}
+	first := &tpg{w: w}
+	ctx, cancel := context.WithTimeout(context.Background(), time.Duration(ts.IdleMs+ts.AvailMs+10*ts.TMs+5000)*time.Millisecond)
+	defer cancel()
+	T := time.Duration(ts.TMs) * time.Millisecond
+	backoff := 10 * time.Millisecond
+	var p genericPaginator
+	var dry func() error
+	w.start = time.Now()
+	if ts.Paginator == "static-stream" {
+		pp, err := pagination.NewStaticPageStreamPaginator(ctx, T, backoff, func(context.Context) (pagination.IStaticPageStream, error) { return first, nil },
+			func(context.Context, pagination.IStaticPage) (pagination.IStaticPage, error) { return nil, errors.New("harness: no next page") },
+			func(_ context.Context, cur pagination.IStaticPageStream) (pagination.IStaticPageStream, error) {
+				return cur.(*tpg).future(), nil
+			})
+		if err != nil {
+			return []string{"ctor-error"}
+		}
+		p, dry = pp, pp.DryUp
+	} else {
+		pp, err := pagination.NewStreamPaginator(ctx, T, backoff, func(context.Context) (pagination.IStream, error) { return first, nil })
+		if err != nil {
+			return []string{"ctor-error"}
+		}
+		p, dry = pp, pp.DryUp
+	}
+	go func() {
+		time.Sleep(time.Until(w.start.Add(time.Duration(ts.IdleMs) * time.Millisecond)))
+		_ = dry()
+	}()
+	var outs []string
+	outs = append(outs, fmt.Sprintf("b:%v", p.HasNext()))
+	it, e := p.GetNext()
+	if e == nil {
+		outs = append(outs, fmt.Sprintf("i:%d", it.(int64)))
+	} else {
+		outs = append(outs, "e:"+errKind(e))
+	}
+	outs = append(outs, fmt.Sprintf("b:%v", p.HasNext()))
+	p.Stop()()
+	return outs
+}
+
+func coqTimedCase(ts timedScenario, outs []string) string {
+	const backoff = 10
+	nEmpty := int((ts.AvailMs + backoff - 1) / backoff)
+	segs := make([]string, 0, nEmpty+1)
+	for i := 0; i < nEmpty; i++ {
+		segs = append(segs, "[Page []]")
+	}
+	segs = append(segs, "[Page [7]]")
+	nRead := nEmpty + 2*int(ts.TMs/backoff) + 8
+	env := make([]string, nRead)
+	for k := 0; k < nRead; k++ {
+		t := int64(k) * backoff
+		env[k] = fmt.Sprintf("(%d, %s)", t, h.Bool(t >= ts.IdleMs))
+	}
+	os := make([]string, len(outs))
+	for i, o := range outs {
+		switch {
+		case strings.HasPrefix(o, "b:"):
+			os[i] = "(OBool " + o[2:] + ")"
+		case strings.HasPrefix(o, "i:"):
+			os[i] = "(OItem " + o[2:] + ")"
+		case o == "e:notfound":
+			os[i] = "(OErr ENotFound)"
+		case o == "e:cancelled":
+			os[i] = "(OErr ECancelled)"
+		default:
+			os[i] = "(OErr EOther)"
+		}
+	}
+	return fmt.Sprintf("(CTimed (mkTCase %d 0 [] %s %s [HasNext; GetNext; HasNext] %s))", ts.TMs, h.List(segs), h.List(env), h.List(os))
+}
+
+// timedBuf separates the execution of a timed scenario (goroutine) from its recording (h.Run is not goroutine-safe).
+type timedBuf struct {
+	outs       []string
+	deviations int
+}
+
+func (b *timedBuf) exec(ts timedScenario) {
+	expected := []string{"b:true", "i:7", "b:false"}
+	if ts.Name == "expired" {
+		expected = []string{"b:false", "e:notfound", "b:false"}
+	}
+	for attempt := 0; attempt < 3; attempt++ { // a deviation from the schedule's nominal outcome must be confirmed 3 times out of 3
+		b.outs = executeTimed(ts)
+		if strings.Join(b.outs, ",") == strings.Join(expected, ",") {
+			break
+		}
+		b.deviations++
+	}
+}
+
+func (b *timedBuf) record(r *h.Run, ts timedScenario, emit bool) {
+	outs := b.outs
+	r.Eval()
+	r.Count("timed:" + ts.Name + ":" + ts.Paginator)
+	r.Distinct(fmt.Sprintf("timed|%v", ts))
+	if b.deviations == 3 && ts.Name == "within" && (len(outs) < 2 || outs[1] != "i:7") {
+		r.Fail("stream-grace-cut-short:"+ts.Paginator, fmt.Sprintf("a future page's item available %d ms after DryUp (grace period %d ms, stream polled live until DryUp) was not yielded: %v", ts.AvailMs-ts.IdleMs, ts.TMs, outs), ts)
+	}
+	if emit {
+		r.Case(coqTimedCase(ts, outs), ts)
+	}
+	r.Sample(map[string]any{"timed_scenario": ts, "outs": outs, "attempts_deviating": b.deviations})
+}
+
+func runTimed(r *h.Run, ts timedScenario, emit bool) {
+	b := &timedBuf{}
+	b.exec(ts)
+	b.record(r, ts, emit)
+}
+
+func timedScenarios() []timedScenario {
+	var l []timedScenario
+	for _, k := range []string{"static-stream", "dynamic-stream"} {
+		l = append(l, timedScenario{Paginator: k, Name: "within", TMs: 600, IdleMs: 900, AvailMs: 1000})
+		l = append(l, timedScenario{Paginator: k, Name: "expired", TMs: 200, IdleMs: 300, AvailMs: 1300})
+	}
+	return l
+}
+
 func main() {
 	r := h.Init("C19")
 	r.Imports = []string{"GU.C19.Model"}
+	r.CaseType, r.CheckFn = "anycase", "check_any"
 	r.Rule("seeded scenarios: paginator kind x page lists (0..20 pages of 0..10 items, failing pages) x future segments x call mixes " +
 		"(canonical drain, GetNext only, random HasNext/GetNext/Stop/Close/DryUp mixes ending with a drain); non-trivial = >1 page and >0 items; distinct by full scenario")
 	var sc scenario
-	if _, ok := r.ReplayObject(&sc); ok {
-		runScenario(r, sc, false)
+	if sig, ok := r.ReplayObject(&sc); ok {
+		if strings.HasPrefix(sig, "stream-grace") {
+			var ts timedScenario
+			r.ReplayObject(&ts)
+			runTimed(r, ts, false)
+		} else {
+			runScenario(r, sc, false)
+		}
 		r.Finish()
 		return
+	}
+	// timed scenarios run concurrently with the rest (they mostly sleep); their results are recorded at the end
+	timedDone := make(chan func(), 8)
+	tss := timedScenarios()
+	for _, ts := range tss {
+		ts := ts
+		go func() {
+			rr := &timedBuf{}
+			rr.exec(ts)
+			timedDone <- func() { rr.record(r, ts, true) }
+		}()
 	}
 	kinds := []string{"static", "dynamic", "static-stream", "dynamic-stream"}
 	// corpus: deterministic scenarios that run first
@@ -563,6 +770,9 @@ func main() {
 		}
 		sc.Ops = genOps(r, stream, int(base))
 		runScenario(r, sc, i < r.N(600, 4000))
+	}
+	for range tss {
+		(<-timedDone)()
 	}
 	r.Finish()
 }
